@@ -30,6 +30,30 @@ pub fn run(what: &str) {
                 }
             }
         }
+        "f5" => {
+            use crate::gen::data::DataSpec;
+            let mut fails = 0;
+            let mut total = 0;
+            let mut hist = std::collections::BTreeMap::new();
+            for seed in 0..400u32 {
+                for a in [0u16, 4, 6] {
+                    let b = 1 + (seed % 3) as u16;
+                    let d = DataSpec { kind: 6, len: 131072 + 1025 + (seed * 371) % 100000, seed, a, b };
+                    let data = d.render();
+                    let f = ruzstd::encoding::compress_to_vec(&data[..], ruzstd::encoding::CompressionLevel::Fastest);
+                    total += 1;
+                    let ok = refz::decompress(&f, None, data.len() + 1).map(|x| x == data).unwrap_or(false);
+                    if !ok { fails += 1; }
+                    if let Ok(info) = frame::walk(&f, &Default::default()) {
+                        let key = info.blocks.iter().map(|b| format!("{}{}", b.btype, b.lit.as_ref().map(|l| l.ltype.to_string()).unwrap_or_default())).collect::<Vec<_>>().join(",");
+                        *hist.entry(key).or_insert(0) += 1;
+                    } else {
+                        *hist.entry("walk-failed".to_string()).or_insert(0) += 1;
+                    }
+                }
+            }
+            println!("f5 family: {fails}/{total} corrupt; block shapes {hist:?}");
+        }
         _ => println!("unknown debug target"),
     }
 }
